@@ -348,7 +348,27 @@ class FlowTable (EventMixin):
       elif e.effective_priority > priority:
         continue
       else:
-        if e.is_matched_by(in_entry.match) or in_entry.is_matched_by(e.match):
+        if _matches_overlap(e.match, in_entry.match):
           return True
 
     return False
+
+
+def _matches_overlap (a, b):
+  """
+  Tests whether a single packet could match both a and b
+
+  This is the overlap relation of OFPFF_CHECK_OVERLAP: neither match needs to
+  encompass the other (e.g., in_port=1 and dl_type=0x800 overlap).
+  """
+  for f in ("in_port", "dl_vlan", "dl_src", "dl_dst", "dl_type", "nw_proto",
+            "tp_src", "tp_dst", "dl_vlan_pcp", "nw_tos"):
+    x,y = getattr(a, f), getattr(b, f)
+    if x is not None and y is not None and x != y: return False
+  for x,y in ((a.get_nw_src(), b.get_nw_src()),
+              (a.get_nw_dst(), b.get_nw_dst())):
+    if x[0] is not None and y[0] is not None:
+      bits = min(x[1], y[1])
+      if not IPAddr(x[0]).inNetwork(IPAddr(y[0]).get_network(bits)):
+        return False
+  return True
